@@ -1,14 +1,58 @@
 """Per-property notes that go into MANIFEST.json and the evidence files."""
 FIX_COMMITS = []
 
-_T = 'contract-based deductive verification: Verus pre/postconditions on the real function bodies (sliced from the compiler expansion each run) against a hand-written SCALE spec'
+_T = 'contract-based deductive verification: Verus pre/postconditions on the real function bodies (sliced from the compiler expansion of /repo each run) against a hand-written SCALE spec; Kani for leaf facts, unsafe code (bounded) and counterexamples'
+_TB = 'Trusted: the SCALE spec text (verus/00_prelude.rs.in + per-impl spec fns), extraction rules R1-R16, external_body items and assumed core/std contracts listed in evidence.coverage.trusted_base, soundness of Verus/z3 and Kani/CBMC.'
 
 INFO = {
+    'C01': {
+        'level': 'proof',
+        'level_text': 'Every Encode impl under contract is proved (Verus, all values, all lengths, all type compositions through the trait contract) to write exactly spec_enc(value), where spec_enc is written from the SCALE format; panic sites (expect on the length prefix) are proved unreachable under the stated element-count precondition.',
+        'level_note': _TB + ' Not decided: bit sequences, Bytes, GenericArray; bulk transmute arms of encode_slice_no_len are a bounded Kani stand-in; floats are a complete finite Kani proof.',
+        'technique': _T,
+        'not_decided': ['BitSlice/BitVec/BitBox encode (bitvec internals outside both verifiers)', 'encode_slice_no_len primitive (transmute) arms: bounded stand-in only', 'default Encode::encode_to (closure capturing &mut): assumed in Verus, discharged per fixed-width type by Kani'],
+    },
     'C03': {
         'level': 'proof',
-        'level_text': 'Every Decode impl under contract is proved (Verus, unbounded) to return Ok(v) only when the consumed bytes are exactly the spec encoding of v and Err only when the input is outside the language (or a budget is exceeded); absence of panics, overflow, out-of-bounds and non-termination are the verifier\'s own obligations on the same real bodies.',
-        'level_note': 'Trusted: the SCALE spec text, the extraction rules R1-R14, assumed core contracts (to/from_le_bytes wrappers, closed by complete Kani proofs), external_body items listed in evidence.coverage.trusted_base.',
+        'level_text': 'Every Decode impl under contract is proved (Verus, unbounded) to return Ok(v) only when the consumed bytes are exactly the spec encoding of v and the input is in the language, and Err only when the input is outside the language (or a budget is exceeded); absence of panics, overflow, out-of-bounds and non-termination are the verifier\'s own obligations on the same real bodies.',
+        'level_note': _TB + ' Unsafe decoders (arrays, Box, bulk Vec path) are bounded Kani stand-ins; BitVec/GenericArray not decided.',
         'technique': _T,
+        'not_decided': ['[T;N]::decode_into, Box/Rc/Arc::decode_wrapped, read_vec_from_u8s (unsafe): bounded stand-ins', 'BTreeMap/BTreeSet/LinkedList::decode (from_iter over closure): bounded stand-ins', 'BitVec decode', 'physical stack exhaustion on recursive types'],
+    },
+    'C04': {
+        'level': 'proof',
+        'level_text': 'All five CompactRef encoders, five compact_len and five Compact decoders are proved against one width-free spec compact(x)/compact_dec(b): encoders produce compact(x), lengths equal |compact(x)|, decoders accept exactly canonical forms that fit the width and return that value.',
+        'level_note': _TB + ' leading_zeros and to/from_le_bytes contracts are assumed in Verus and closed by complete (full-domain) Kani proofs; CompactRef::using_encoded (ArrayVec, unsafe set_len) is discharged by Kani.',
+        'technique': _T,
+        'not_decided': [],
+    },
+    'C07': {
+        'level': 'proof',
+        'level_text': 'The four Encode methods are tied to one spec_enc by the trait contract; every override and the default bodies of encode/using_encoded/encoded_size (with SizeTracker) are proved; bulk vs element-wise agreement is proved for the element-wise arms and bounded-checked for the transmute arms.',
+        'level_note': _TB + ' default encode_to is assumed in Verus (closure captures &mut) and discharged per fixed-width type by Kani.',
+        'technique': _T,
+        'not_decided': ['bulk transmute arms (encode and decode): bounded stand-ins', 'array bulk read: bounded stand-in', 'io::Write sinks: write_all contract assumed'],
+    },
+    'C08': {
+        'level': 'proof',
+        'level_text': 'Every decoder under contract is verified once for an arbitrary I: Input satisfying the Input contract (parametricity), and each provided Input implementation is verified against that contract, so results are a function of the byte stream only.',
+        'level_note': _TB + ' IoReader (read_exact) and BytesCursor (bytes crate) rest on assumed contracts of std/bytes.',
+        'technique': _T,
+        'not_decided': ['IoReader::read (std read_exact contract assumed)', 'BytesCursor zero-copy path (bytes crate contracts assumed)'],
+    },
+    'C09': {
+        'level': 'proof',
+        'level_text': 'The reservation primitive on the decode path (Vec::reserve_exact) carries the precondition request <= MAX_PREALLOCATION bytes in its assumed spec; the real chunked decode loop is proved to satisfy it for every length and element size, and to terminate.',
+        'level_note': _TB + ' Linear bound needs min_enc(T) >= 1 or size_of(T) == 0 for element types; see known findings. Maps/sets/lists (no reservation) and Box: bounded stand-ins; BitVec not decided.',
+        'technique': _T,
+        'not_decided': ['read_vec_from_u8s remaining_len guard (bounded Kani stand-in)', 'BTreeMap/BTreeSet/LinkedList node allocations (bounded)', 'BitVec', 'heap exhaustion itself (only request sizes are accounted)'],
+    },
+    'C11': {
+        'level': 'proof',
+        'level_text': 'Input carries an abstract depth state (open levels, room); every decoder is proved to need exactly need_depth(bytes) levels: Ok implies the room sufficed and the state is restored, Err implies the input is not in the language or need_depth exceeds the room; DepthTrackingInput and DecodeLimit are proved against exact budget arithmetic.',
+        'level_note': _TB + ' 2^32 nested levels excluded by an explicit assumption at the depth counter increment; Box/maps/lists protocol sites bounded; machine stack not modelled.',
+        'technique': _T,
+        'not_decided': ['Box/BTreeMap/BTreeSet/LinkedList descend/ascend sites: bounded stand-ins', 'bytes of machine stack'],
     },
     'C17': {'not_applicable': 'compile-time accept/reject of programs by rustc + proc-macro: no contract on code reachable by Verus/Kani can express or decide it (DESIGN.md C17)'},
 }
